@@ -65,9 +65,10 @@ def run(chk):
             if rng.random() < 0.5:
                 req = ("count", int(rng.integers(0, n + 1)))
             else:
-                ch = int(rng.integers(0, 5))
-                t = [0.0, float(np.sort(m)[int(rng.integers(0, n))]), float(m.max()) * 1.5 + 1.0, float(rng.integers(0, 17)) / 16.0,
-                     float(np.median(m))][ch]
+                ch = int(rng.integers(0, 7))
+                mk_ = float(np.sort(m)[int(rng.integers(0, n))])
+                t = [0.0, mk_, float(m.max()) * 1.5 + 1.0, float(rng.integers(0, 17)) / 16.0, float(np.median(m)),
+                     float(np.nextafter(mk_, np.inf)), mk_ * (1.0 + 1e-13)][ch]        # ... and thresholds a hair above a magnitude: "at least" is exact
                 req = ("thr", t)
             ops.append((req, meth, bool(rng.random() < 0.5)))
         case["ops"] = [[list(r), me, xy] for r, me, xy in ops]
@@ -133,6 +134,23 @@ def run(chk):
                 kwargs["method"] = METHODS[meth][0]
             if use_xy:
                 kwargs["xy"] = (X, y)
+            if rng.random() < 0.3:
+                # a request that has to be rejected (more sensors than there are, a negative count, nothing at all) is caught by the caller:
+                # the model must still report as many sensors as it has selected, and the same ones
+                bad = [{"n_sensors": n + int(rng.integers(1, 4))}, {"n_sensors": np.int64(n + 1)}, {"n_sensors": -1}, {}][int(rng.integers(0, 4))]
+                before_sel, before_n = [int(i) for i in model.selected_sensors], model.n_sensors
+                try:
+                    impl.quiet(model.update_sensors, **bad, **kwargs)
+                    rejected = False
+                except Exception:
+                    rejected = True
+                if rejected:
+                    chk.count("rejected_requests_in_between")
+                    after_sel, after_n = [int(i) for i in model.selected_sensors], model.n_sensors
+                    if after_sel != before_sel or after_n != before_n or int(after_n) != len(after_sel):
+                        chk.violation("impl", "rejected-update-changed-state", f"update_sensors({ {k_: int(v_) for k_, v_ in bad.items()} }) was rejected but the model now "
+                                      f"reports n_sensors={after_n} with selection {after_sel} (before: {before_n}, {before_sel})", {"case": case})
+                        break
             try:
                 impl.sspoc_bystander(X.shape[1], n_classes=2 + (len(case.get("history", [])) % 2))      # another model used in between
                 if req[0] == "count":
